@@ -50,6 +50,18 @@ func init() {
 			return
 		}
 		c.Ev("thin_pool_enabled")
+		// every other instance: the market is disabled again while it is empty and enabled once more
+		// (leveragelp, perpetual and accounted pool records are removed and created afresh)
+		if c.Job.Index%2 == 1 {
+			if w.GovExec("leverage off the thin pool", &lptypes.MsgRemovePool{Authority: w.Gov, Id: pid}) {
+				c.Ev("empty_market_removed")
+			}
+			if !w.GovExec("leverage on the thin pool again", &lptypes.MsgAddPool{Authority: w.Gov, Pool: lptypes.AddPool{AmmPoolId: pid, LeverageMax: math.LegacyNewDec(10)}}) {
+				c.Ev("thin_pool_not_enabled_again")
+				return
+			}
+			c.Ev("market_enabled_again")
+		}
 		// a second ordinary provider, so that there are two unleveraged owners
 		w.Step(5, w.Tx(u[1], &ammtypes.MsgJoinPool{Sender: u[1].S(), PoolId: pid, MaxAmountsIn: sdk.NewCoins(chain.Coin("uusdc", S/20)), ShareAmountOut: math.NewInt(1)}))
 		nPos := 2 + c.Job.Index%3
@@ -61,6 +73,12 @@ func init() {
 			} else {
 				c.Ev("large_leveraged_position_refused")
 			}
+		}
+		// every fourth instance: a late provider tops the stable side up, so that forced closes pass the
+		// stable-reserve hook and the exits behind them follow real liquidations
+		if c.Job.Index%4 == 3 && !w.Dead {
+			w.Step(5, w.Tx(u[2], &ammtypes.MsgJoinPool{Sender: u[2].S(), PoolId: pid, MaxAmountsIn: sdk.NewCoins(chain.Coin("uusdc", S*3)), ShareAmountOut: math.NewInt(1)}))
+			c.Ev("stable_side_topped_up")
 		}
 		// lock-ups expire
 		w.Step(2*3600 + 5)
@@ -117,6 +135,15 @@ func init() {
 		w.Prices["ATOM"] = old
 		exitForms(1)
 		g.Free(20, g.StdDt)
+		// governance tries to disable the market while positions may still be open on it
+		if !w.Dead {
+			if w.GovExec("leverage off the used thin pool", &lptypes.MsgRemovePool{Authority: w.Gov, Id: pid}) {
+				c.Ev("used_market_removed")
+			} else {
+				c.Ev("used_market_removal_refused")
+			}
+			g.Free(10, g.StdDt)
+		}
 		_ = gen.Mix{}
 	})
 }
